@@ -784,7 +784,19 @@ func main() {
 		stdout.Flush()
 		return true
 	}
+	ntimeout := 0
 	emit := func(c Case, full bool) {
+		if c.Obs.Kind == "timeout" {
+			// every Load that does not return costs 35 s: after a few of them the run has its failing inputs
+			ntimeout++
+			defer func() {
+				if ntimeout >= 4 {
+					fmt.Fprintln(os.Stderr, "c06: four Loads did not return; the remaining cases are not run")
+					stdout.Flush()
+					os.Exit(0)
+				}
+			}()
+		}
 		if !full && c.Obs.Kind != "panic" && c.Obs.Kind != "timeout" && (c.Obs.Kind == "ok" || c.Obs.Located) && c.Run == "" && c.NilRep == 0 && c.Shift == "" {
 			c.Src = ""
 		}
